@@ -143,6 +143,13 @@ def boundary_entries():
     add("MaskedAffineAR(no blocks)", lambda: ar.MaskedAffineAutoregressiveTransform(3, 4, num_blocks=0), [3])
     add("RandomPermutation(one feature)", lambda: perm.RandomPermutation(1), [1])
     add("PiecewiseRQCDF(one bin)", lambda: nl.PiecewiseRationalQuadraticCDF([2], num_bins=1, tails="linear", tail_bound=2.0), [2])
+    # items without any feature dimension (inputs of shape [N]): sums over "all but the batch dimension" have nothing to sum
+    add("Exp(scalar items)", lambda: nl.Exp(), [])
+    add("Sigmoid(scalar items)", lambda: nl.Sigmoid(), [])
+    add("Composite(Exp, LeakyReLU)(scalar items)", lambda: base.CompositeTransform([nl.Exp(), nl.LeakyReLU(0.3)]), [])
+    add("Composite(Tanh, Exp, Inverse(Exp))(scalar items)", lambda: base.CompositeTransform([nl.Tanh(), nl.Exp(), base.InverseTransform(nl.Exp())]), [])
+    add("Composite(LeakyReLU, Inverse(Exp))(scalar items)", lambda: base.CompositeTransform([nl.LeakyReLU(0.3), base.InverseTransform(nl.Exp())]), [], dom="positive")
+    add("Inverse(Composite(Exp, LeakyReLU))(scalar items)", lambda: base.InverseTransform(base.CompositeTransform([nl.Exp(), nl.LeakyReLU(0.3)])), [], dom="positive")
     add("AffineCoupling(two features)", lambda: cp.AffineCouplingTransform([1, 0], lambda i, o: nets.ResidualNet(i, o, 4, num_blocks=0)), [2])
     return E
 
@@ -153,6 +160,8 @@ def sample_inputs(e, n, seed, dtype=torch.float64):
     shape = [n] + list(e["shape"])
     if e["dom"] == "unit":
         x = torch.rand(shape, generator=g, dtype=torch.float64) * 0.96 + 0.02
+    elif e["dom"] == "positive":
+        x = torch.rand(shape, generator=g, dtype=torch.float64) * 3.0 + 0.05
     else:
         x = torch.randn(shape, generator=g, dtype=torch.float64) * 1.2
     ctx = None
